@@ -478,6 +478,19 @@ func (ex *Exec) applyContract(st *State, frID int, instr ssa.Instruction, fc *Fu
 		ex.applyHavoc(st, recs)
 	}
 	res := ex.freshResults(st, sig.Results(), "res:"+fc.Name)
+	if fc.Fresh && len(res) > 0 {
+		if ex.freshRes == nil {
+			ex.freshRes = map[string]int{}
+		}
+		switch r := res[0].(type) {
+		case Term:
+			ex.freshRes[r.S] = ex.D.n
+		case SliceV:
+			ex.freshRes[r.Arr.S] = ex.D.n
+		case IfaceV:
+			ex.freshRes[r.Ref.S] = ex.D.n
+		}
+	}
 	if fc.Fresh && sig.Results().Len() > 0 {
 		ex.allocateFor(st, res[0], sig.Results().At(0).Type())
 	}
